@@ -37,6 +37,29 @@ Definition latest_total_check : bool :=
   forallb (fun c => forallb (fun e => is_ok (get_max_payload (c_tab c) latest latest (fst e))) (t_drs (c_tab c)))
           band_configs.
 
+(* every (version, revision) combination resolves: all version keys and "latest" (= any
+   unknown string) x all revision keys of the configuration and "latest" x all data-rates the
+   region lists since its first release *)
+Definition every_rev_cell_check (reg : region) (t : tables) (v r : string) (dr : Z) : bool :=
+  every_revision_ok reg (t_drs t) dr (get_max_payload t v r dr).
+
+Definition every_rev_check : bool :=
+  forallb (fun c =>
+    match region_of (c_name c) with
+    | None => false
+    | Some reg =>
+      let t := c_tab c in
+      forallb (fun v => forallb (fun r => forallb (fun e => every_rev_cell_check reg t v r (fst e)) (t_drs t))
+                                (latest :: rev_keys t)) (latest :: skeys (t_maxpl t))
+    end) band_configs.
+
+(* ... and resolves to SOME size table, whatever the strings *)
+Definition resolves_check : bool :=
+  forallb (fun c =>
+    let t := c_tab c in
+    forallb (fun v => forallb (fun r => match select_size_table t v r with Some _ => true | None => false end)
+                              (latest :: rev_keys t)) (latest :: skeys (t_maxpl t))) band_configs.
+
 Definition rep_le_check (tr tn : tables) (v r : string) : bool :=
   match select_size_table tr v r with
   | None => true
